@@ -238,6 +238,12 @@ def worker(spec_path, out_path):
             v, a = read_nc(nc)
             os.remove(nc)
             res["vars"], res["attrs"] = v, a
+            if spec.get("write_twice"):
+                # writing a grid file must not change the mesh: a second file written from the same mesh holds the same arrays
+                mesh.writeGridfile(nc)
+                v2, _a2 = read_nc(nc)
+                os.remove(nc)
+                res["vars2"] = v2
             res["extras"] = {}
             if rlog is not None:
                 res["extras"]["refinelog"] = rlog
